@@ -12,6 +12,7 @@ def register(reg):
     register_core(reg)
     register_validation(reg)
     register_proxies(reg)
+    register_strings(reg)
 
     @reg.specfun("as_bytes")
     def as_bytes(ex, st, args, cx):
@@ -213,3 +214,32 @@ def register_proxies(reg):
     def has_new_key(ex, st, args, cx):
         """has_new_key(d, k): k is the key the last __setitem__ wrote (ghost: recorded by the definitional clause)"""
         return ex.o.bool_(ex.w.fun("spec_written_key", "V", "V", "bool")(args[0].e, args[1].e))
+
+
+def register_strings(reg):
+    @reg.specfun("regex_match")
+    def regex_match(ex, st, args, cx):
+        return ex.o.bool_(ex.w.fun("regex_match", "V", "str", "bool")(args[0].e, ex.o.s(args[1])))
+
+    @reg.specfun("str_strip_of")
+    def str_strip_of(ex, st, args, cx):
+        """the field's strip transform: none, str.strip() or str.strip(chars)"""
+        w, o, V = ex.w, ex.o, ex.w.V
+        f, x = o.r(args[0]), o.s(args[1])
+        opt = st.rd("StringField.transform_strip", f)
+        tr = o.truthy(st, SV(opt))
+        plain = w.fun("str_strip", "str", "str")(x)
+        chars = w.fun("str_strip_chars", "str", "str", "str")(x, V.s(opt))
+        return o.str_(z3.If(tr, z3.If(V.is_str(opt), chars, plain), x))
+
+    @reg.specfun("str_case")
+    def str_case(ex, st, args, cx):
+        w, o, V = ex.w, ex.o, ex.w.V
+        f, x = o.r(args[0]), o.s(args[1])
+        opt = st.rd("StringField.transform_case", f)
+        tr = o.truthy(st, SV(opt))
+        lower = w.fun("str_lower", "str", "str")(x)
+        upper = w.fun("str_upper", "str", "str")(x)
+        for t in (lower, upper):
+            st.assume((z3.Length(t) == 0) == (z3.Length(x) == 0))
+        return o.str_(z3.If(tr, z3.If(opt == V.str(z3.StringVal("lower")), lower, upper), x))
